@@ -2,77 +2,9 @@
 `math/bits_iter.rs`: from, next, collect.
 (split out of GenRegs2.lean so that an equality that no longer holds blocks only the properties that rely on it)
 -/
-import Qvnt.Lemmas.GenPre
-
-set_option linter.unusedSectionVars false
-
-namespace Qvnt.Gen2
-open Qvnt Qvnt.Gen
-
-variable {R : Type}
-
-/-! ### `BitsIter::next` (`math/bits_iter.rs`) -/
-
-/-- the model's iterator state as the translated record -/
-def bitsOfModel (it : Qvnt.BitsIter) : BitsIterG := ⟨it.bits, it.pos⟩
-
-theorem bits_from_eq (m : Nat) : bits_from m = bitsOfModel (Qvnt.BitsIter.ofMask m) := rfl
-
-theorem shl_pos (p : Nat) (_h : p < 2 ^ 64) : shlW 64 p 1 = shl1 p := by
-  unfold shlW shl1 W; simp
-
-theorem bits_next_eq (fuel : Nat) (it : Qvnt.BitsIter) (h : it.pos < 2 ^ 64) :
-    bits_next fuel (bitsOfModel it) = (it.next fuel).map (fun r => (r.1, bitsOfModel r.2)) := by
-  unfold bits_next
-  induction fuel generalizing it with
-  | zero => simp [bits_next_loop1, Qvnt.BitsIter.next]
-  | succ n ih =>
-    unfold bits_next_loop1 Qvnt.BitsIter.next
-    simp only [bitsOfModel]
-    by_cases h1 : it.pos &&& it.bits = 0
-    · by_cases h2 : (decide (it.pos > it.bits) || it.pos == 0) = true
-      · simp [h1, h2]
-      · have h2' : ¬ (it.bits < it.pos ∨ it.pos = 0) := by simpa using h2
-        have := ih ⟨it.bits, shl1 it.pos⟩ (by unfold shl1 W; exact Nat.mod_lt _ (by decide))
-        simp [bitsOfModel] at this
-        simp [h1, h2', shl_pos _ h, this]
-    · simp [h1, shl_pos _ h]
-
-theorem bitsCollect_eq (fuel : Nat) (it : Qvnt.BitsIter) (h : it.pos < 2 ^ 64) :
-    bitsCollect fuel (bitsOfModel it) = it.collect fuel := by
-  induction fuel generalizing it with
-  | zero => simp [bitsCollect, Qvnt.BitsIter.collect]
-  | succ n ih =>
-    unfold bitsCollect Qvnt.BitsIter.collect
-    rw [bits_next_eq _ _ h]
-    cases hn : it.next (n + 1) with
-    | none => simp
-    | some r =>
-      obtain ⟨o, it'⟩ := r
-      cases o with
-      | none => simp
-      | some p =>
-        have hp : it'.pos < 2 ^ 64 := by
-          unfold Qvnt.BitsIter.next at hn
-          -- every successor state has `pos = shl1 _`
-          have key : ∀ (f : Nat) (i : Qvnt.BitsIter) q i', i.next f = some (some q, i') → i'.pos < 2 ^ 64 := by
-            intro f
-            induction f with
-            | zero => intro i q i' hh; simp [Qvnt.BitsIter.next] at hh
-            | succ f ihf =>
-              intro i q i' hh
-              unfold Qvnt.BitsIter.next at hh
-              split at hh
-              · simp at hh; rw [← hh.2]; unfold shl1 W; exact Nat.mod_lt _ (by decide)
-              · split at hh
-                · simp at hh
-                · exact ihf _ _ _ hh
-          exact key (n + 1) it p it' (by unfold Qvnt.BitsIter.next; exact hn)
-        simp [ih it' hp]
-        cases it'.collect n <;> simp
-
-theorem bitsList_eq (m : Nat) : bitsList m = bitsIterList m := by
-  unfold bitsList bitsIterList
-  rw [bits_from_eq, bitsCollect_eq _ _ (by simp [Qvnt.BitsIter.ofMask])]
-
-end Qvnt.Gen2
+import Qvnt.Lemmas.GenBits.bitsOfModel
+import Qvnt.Lemmas.GenBits.bits_from_eq
+import Qvnt.Lemmas.GenBits.shl_pos
+import Qvnt.Lemmas.GenBits.bits_next_eq
+import Qvnt.Lemmas.GenBits.bitsCollect_eq
+import Qvnt.Lemmas.GenBits.bitsList_eq
